@@ -67,6 +67,43 @@ func CheckOne(s *vals.Spec) (key, msg string) {
 			return typeName(s.T) + ":ReadMapValue", fmt.Sprintf("%s: ReadMapValue gives a different map: %s", s.String(), m)
 		}
 	}
+	// a container that is reused - filled, cleared, filled again with the same entries - encodes
+	// like a fresh one (what Clear() leaves behind must not shadow the entries put afterwards)
+	if s.T == vals.TList || s.T == vals.TMap || s.T == vals.TIMap {
+		fill := func(c value.Value) {
+			switch x := c.(type) {
+			case *value.ListValue:
+				for _, it := range s.Items {
+					x.Add(vals.Build(it))
+				}
+			case *value.MapValue:
+				for i, k := range s.Keys {
+					x.Put(k, vals.Build(s.Items[i]))
+				}
+			case *value.IntMapValue:
+				for i, k := range s.IKeys {
+					x.Put(k, vals.Build(s.Items[i]))
+				}
+			}
+		}
+		switch x := v.(type) {
+		case *value.ListValue:
+			x.Clear()
+		case *value.MapValue:
+			x.Clear()
+		case *value.IntMapValue:
+			x.Clear()
+		}
+		fill(v)
+		out4 := gio.NewDataOutputX()
+		value.WriteValue(out4, v)
+		if !bytes.Equal(out4.ToByteArray(), ref) {
+			return typeName(s.T) + ":reused-after-Clear", fmt.Sprintf("%s: filled, cleared and filled again with the same entries it encodes to %x…, a fresh one to %x… (lengths %d/%d)", s.String(), clip(out4.ToByteArray()), clip(ref), len(out4.ToByteArray()), len(ref))
+		}
+		if m := vals.Same(s, v, "$"); m != "" {
+			return typeName(s.T) + ":reused-after-Clear", fmt.Sprintf("%s: filled, cleared and filled again it differs from what was put: %s", s.String(), m)
+		}
+	}
 	return "", ""
 }
 
